@@ -278,6 +278,13 @@ func (s *muxerStream) hasPart(segmentID uint64, partID uint64) bool {
 			return true
 		}
 	} else {
+		// the initial gap segments are listed and complete
+		if idx := int64(segmentID) - int64(s.segmentDeleteCount); idx >= 0 && idx < int64(len(s.segments)) {
+			if _, ok := s.segments[idx].(*muxerGap); ok {
+				return true
+			}
+		}
+
 		for _, sop := range s.segments {
 			if seg, ok := sop.(*muxerSegmentFMP4); ok && segmentID == seg.id {
 				// If the Client requests a Part Index greater than that of the final
